@@ -27,8 +27,9 @@ def pools(tier):
     core = [V.vnull(), V.vbool(True), V.vint(1), V.vint(U32MAX), V.vstr("a"), V.vstr("{}{}"), V.vstr("a{}b"), V.vstr("/"),
             V.vlist(V.vstr("a"), V.vstr("b")), V.vlist(), {"t": "syn", "n": 3}, V.vgn(0)]
     core4 = [V.vbool(False), V.vint(2), V.vint(U32MAX), V.vstr("{}-{}-{}"), V.vstr("x"), V.vlist(V.vint(7))]
-    return {"full": full if tier == "thorough" else full, "core": core if tier == "thorough" else core[:9] + core[10:],
-            "core4": core4, "src": 3, "maxlen": 4 if tier == "thorough" else 3}
+    if tier == "thorough":
+        return {"full": full, "core": full, "core4": core, "src": 3, "maxlen": 4}
+    return {"full": full, "core": core[:9] + core[10:], "core4": core4, "src": 3, "maxlen": 3}
 
 
 def canon(v):
